@@ -561,7 +561,7 @@ def run_case(ctx, family, params):
             q = float(np.sum(np.array(datafiles.gauss_params()[sym]["coeffs_s"], dtype=float)))
             rr = _dist(pts, center)
             far = rr * math.sqrt(float(np.min(al))) >= 8.0
-            ctx.check(C_CHARGE, subject, float(np.max(np.abs(rr[far] * v[far] - q) / q)), 1e-10, sig="rV!=sum(coeffs)", detail={"rV": (rr[far] * v[far]).tolist(), "Q": q})
+            ctx.check(C_CHARGE, subject, float(np.max(np.abs(rr[far] * v[far] - q) / q)), TOL_CHARGE, sig="rV!=sum(coeffs)", detail={"rV": (rr[far] * v[far]).tolist(), "Q": q})
             ctx.case_note("core_charge", q)
     elif family == "load":
         sym = params["symbol"]
